@@ -2,7 +2,7 @@ CONSTANTS
   TBle = 30000
   TDisc = 20000
   MaxSteps = 5
-  OpKinds = {}
+  OpKinds = {"announce"}
   Msgs <- SubMsgs
   MaxChunk = 1
   GenMode = TRUE
